@@ -48,7 +48,10 @@ def body_of(shape, k, variant):
 SHAPES = ("fixed", "stream", "empty", "bodiless")
 # the ways a WSGI application may hand over a response of each shape (PEP 3333; empty items are "not ready yet")
 STYLES = {
-    "fixed": ("list", "generator", "empty-item-first", "one-item", "empty-item-between", "more-than-declared", "write-callable"),
+    # "error-...": the application raises httping.HTTPError (from the callable / from the body iterator); the server
+    # renders it with a Content-Length, so towards the connection it is a response of fixed length
+    "fixed": ("list", "generator", "error-raised", "error-raised-iterating", "empty-item-first", "one-item", "empty-item-between",
+              "more-than-declared", "write-callable"),
     "stream": ("list", "generator", "empty-item-first", "one-item", "empty-item-between", "write-callable"),
     "empty": ("no-items", "length0-no-items", "empty-item", "length0-empty-item-list", "length0-empty-item-generator",
               "empty-item-list"),
@@ -67,7 +70,7 @@ def style_of(shapes, variant, k):
     for j in sorted(shapes):
         if j != k:
             rank = rank * len(SHAPES) + SHAPES.index(shapes[j])
-    return STYLES[shape][(variant * 2 + rank) % len(STYLES[shape])]
+    return STYLES[shape][(variant * 2 + rank + k) % len(STYLES[shape])]     # + k: neighbours of one shape differ in style
 
 
 def method_of(style):
@@ -75,7 +78,25 @@ def method_of(style):
 
 
 def status_of(style):
-    return 204 if style.startswith("204") else 304 if style.startswith("304") else 200
+    return 204 if style.startswith("204") else 304 if style.startswith("304") else 409 if style.startswith("error") else 200
+
+
+def error_of(k):
+    from ioflo.aio.http import httping
+    return httping.HTTPError(409, reason="Conflict", title="r%d" % k, detail="raised by the application", headers={"X-Id": str(k)})
+
+
+def expected_body(shapes, variant, k):
+    if style_of(shapes, variant, k).startswith("error"):
+        return error_of(k).render()
+    return b"".join(body_of(shapes.get(k), k, variant))
+
+
+def response_class(shape, style):
+    return "error" if style.startswith("error") else shape
+
+
+SEEN_PAIRS = set()    # (class of response k, class of response k+1) on one connection
 
 
 SEEN_STYLES = {}      # (shape, style) -> positions of the connection at which it was used
@@ -101,6 +122,15 @@ class App:
         style = style_of(self.shapes, self.variant, k)
         self.styles[k] = style
         SEEN_STYLES.setdefault((shape, style), set()).add(k)
+        if k - 1 in self.styles:
+            SEEN_PAIRS.add((response_class(self.shapes[k - 1], self.styles[k - 1]), response_class(shape, style)))
+        if style == "error-raised":
+            raise error_of(k)
+        if style == "error-raised-iterating":
+            def failing():
+                raise error_of(k)
+                yield b""      # noqa
+            return failing()
         headers = [("X-Id", str(k)), ("Content-Type", "application/octet-stream")]
         if shape == "fixed" or style.startswith("length0"):
             headers.append(("Content-Length", str(sum(len(p) for p in pieces))))
@@ -355,7 +385,7 @@ class System:
             m = re.match(r"^/r(\d+)$", str((r.get("request") or {}).get("path", "")))
             shape = "corrupt"
             want = self.shapes.get(rid)
-            if want is not None and bytes(r["body"]) == b"".join(body_of(want, rid, self.variant)) and not r["errored"] \
+            if want is not None and bytes(r["body"]) == expected_body(self.shapes, self.variant, rid) and not r["errored"] \
                     and r["status"] == status_of(style_of(self.shapes, self.variant, rid)) and "x-wrong-method" not in r["headers"] \
                     and (r.get("request") or {}).get("method") == method_of(style_of(self.shapes, self.variant, rid)):
                 shape = want
@@ -438,6 +468,11 @@ def run_c31(ctx):
     missing = [(sh, st) for sh in SHAPES for st in STYLES[sh] if len(SEEN_STYLES.get((sh, st), ())) < gn]
     if missing and not ctx.divs:
         raise tlc.TlcError("vacuous walk: response styles not used at every position of the connection: %r" % missing)
+    classes = ("fixed", "stream", "empty", "bodiless", "error")
+    nopair = [(a, b) for a in classes for b in classes if (a, b) not in SEEN_PAIRS]
+    if nopair and not ctx.divs:
+        raise tlc.TlcError("vacuous walk: ordered pairs of response classes never met on one connection: %r" % nopair)
+    ctx.extra["response_class_pairs_on_one_connection"] = len(SEEN_PAIRS)
     ctx.extra["response_styles_exercised"] = {"%s/%s" % k: sorted(v) for k, v in sorted(SEEN_STYLES.items())}
     ctx.exhaustive = False       # outcomes the specification allows but the implementation never produces cannot be replayed
     ctx.extra.update({"graph_states": len(g.states), "graph_edges": g.nedges, "state_action_pairs": total_pairs,
